@@ -1,16 +1,19 @@
 #!/bin/bash
-# run_seeded.sh <seed name> [property]: apply /verif/seeded/<name>/patch.diff to /repo, run the check, undo.
+# run_seeded.sh <seed name> [property]: apply /verif/seeded/<name>/patch.diff to a scratch worktree of /repo,
+# run the property's check against it (QSMTP_SRC), remove the worktree.  (/repo itself stays untouched so that
+# other work running against it is not disturbed; `git -C /repo apply` + `./check` + `git checkout -- .` is equivalent.)
 N=$1; P=${2:-$(echo $1 | cut -d- -f1 | tr a-z A-Z)}
-cd /repo || exit 2
-git diff --quiet || { echo "repo dirty"; exit 2; }
+W=$(mktemp -d /tmp/seedrun-XXXXXX)
+trap 'git -C /repo worktree remove --force "$W/repo" >/dev/null 2>&1; rm -rf "$W"' EXIT
+git -C /repo worktree add --detach "$W/repo" HEAD >/dev/null 2>&1 || { echo "worktree failed"; exit 2; }
+cd "$W/repo"
 if ! git apply /verif/seeded/$N/patch.diff 2>/dev/null; then
-  git apply -3 /verif/seeded/$N/patch.diff 2>/dev/null || { git checkout -- . ; git reset -q; echo "$N: PATCH DOES NOT APPLY to current tree"; exit 3; }
-  git reset -q
+  echo "$N: PATCH DOES NOT APPLY to current tree"; exit 3
 fi
 cd /verif
 S=$(date +%s)
-OUT=$(./check $P 2>&1 | grep -E "VIOLATION|KNOWN" | head -3)
-RC=$?
+cp evidence/$P.json "$W/evidence.bak" 2>/dev/null
+OUT=$(QSMTP_SRC="$W/repo" ./check $P 2>&1 | grep -E "VIOLATION|KNOWN" | head -3)
+cp "$W/evidence.bak" evidence/$P.json 2>/dev/null
 E=$(( $(date +%s) - S ))
-git -C /repo checkout -- .
 echo "$N [$P] ${E}s: ${OUT:-no violation reported}"
